@@ -141,7 +141,11 @@ def execute(hist, paths):
             with dbio.quiet():
                 if step["op"] == "create":
                     try:
-                        db2 = gffutils.create_db([G.real_feature(f) for f in step["feats"]], paths[step["path"]], force=step["force"], merge_strategy=step["strategy"])
+                        if step.get("form") == "text":      # GFF3 text with '##' directives, parsed in this very process
+                            text = "".join("##%s\n" % dec(d) for d in step["dirs"]) + "".join(G.gff3_line(f) + "\n" for f in step["feats"])
+                            db2 = gffutils.create_db(text, paths[step["path"]], from_string=True, force=step["force"], merge_strategy=step["strategy"])
+                        else:
+                            db2 = gffutils.create_db([G.real_feature(f) for f in step["feats"]], paths[step["path"]], force=step["force"], merge_strategy=step["strategy"])
                         db = db2
                     except Exception as e:  # noqa
                         st = "raise"
